@@ -10,18 +10,26 @@ use crate::util::{fnv64, Budget, Report, Tier, Violation};
 use crate::world::{ops_short, run_world, Op, OptSet, WorldFailure};
 
 pub mod c01;
+pub mod c04;
 pub mod c06;
 pub mod c07;
 pub mod c08;
 pub mod c09;
+pub mod c12;
+pub mod c13;
+pub mod c18;
 
 pub fn check(prop: &str, tier: Tier) -> i32 {
 	match prop {
 		"C01" => c01::check(tier),
+		"C04" => c04::check(tier),
 		"C06" => c06::check(tier),
 		"C07" => c07::check(tier),
 		"C08" => c08::check(tier),
 		"C09" => c09::check(tier),
+		"C12" => c12::check(tier),
+		"C13" => c13::check(tier),
+		"C18" => c18::check(tier),
 		_ => {
 			eprintln!("machinery: unknown property {prop}");
 			2
@@ -47,8 +55,12 @@ pub fn replay(prop: &str, file: &str) -> i32 {
 	let r = j.get("replay").cloned().unwrap_or(j.clone());
 	match prop {
 		"C06" | "C01" | "C07" | "C11" if r["engine"] == "world" => replay_world(prop, &r),
+		"C04" => c04::replay(&r),
 		"C08" => c08::replay(&r),
 		"C09" => c09::replay(&r),
+		"C12" => c12::replay(&r),
+		"C13" => c13::replay(&r),
+		"C18" => c18::replay(&r),
 		_ => {
 			eprintln!("machinery: no replay for {prop}");
 			2
